@@ -14,9 +14,16 @@ import (
 	nd "github.com/celestiaorg/celestia-node/verifnd"
 )
 
-var verifStreamRows []RowNamespaceData
+var (
+	verifStreamRows   []RowNamespaceData
+	verifStreamBreaks bool // the stream fails (not EOF) after its first row
+	verifRowsRead     int
+)
 
 func verifRowRead(rnd *RowNamespaceData, r io.Reader) (int64, error) {
+	if verifStreamBreaks && len(verifStreamRows) == 0 {
+		return 0, io.ErrUnexpectedEOF
+	}
 	if len(verifStreamRows) == 0 {
 		return 0, io.EOF
 	}
@@ -75,4 +82,38 @@ func VerifH_C06_ReusedRangeBufferIsNotPoisoned() {
 	nd.Assert(len(reused.Shares) == len(fresh.Shares), "same-rows")
 	nd.Assert(verifSameProof(reused.FirstIncompleteRowProof, fresh.FirstIncompleteRowProof), "first-row-proof-is-the-new-responses")
 	nd.Assert(verifSameProof(reused.LastIncompleteRowProof, fresh.LastIncompleteRowProof), "last-row-proof-is-the-new-responses")
+}
+
+// The same for NamespaceData (the shrex getter decodes every attempt of
+// GetNamespaceData into one value): after an earlier response - complete, or
+// cut off by a stream error after some rows - a later response decodes to
+// exactly its own rows.
+//
+//verif:opts nopanic cover=compared,after-broken-stream
+func VerifH_C06_ReusedNamespaceDataBufferIsNotPoisoned() {
+	first := verifArbRows("first")
+	second := verifArbRows("second")
+
+	var reused NamespaceData
+	verifStreamRows = append([]RowNamespaceData(nil), first...)
+	verifStreamBreaks = nd.Choice(2, "firstStreamBreaks") == 1
+	_, err := reused.ReadFrom(bytes.NewReader(nil))
+	if verifStreamBreaks {
+		nd.Cover("after-broken-stream")
+		nd.Assert(err != nil, "broken-stream-is-an-error")
+	} else {
+		nd.Assert(err == nil, "first-decodes")
+	}
+	verifStreamBreaks = false
+	verifStreamRows = append([]RowNamespaceData(nil), second...)
+	_, err = reused.ReadFrom(bytes.NewReader(nil))
+	nd.Assert(err == nil, "second-decodes")
+
+	nd.Cover("compared")
+	nd.Assert(len(reused) == len(second), "later-response-decodes-to-exactly-its-own-rows")
+	for i := range second {
+		if i < len(reused) {
+			nd.Assert(nd.EqBytes(reused[i].Shares[0].ToBytes(), second[i].Shares[0].ToBytes()) && verifSameProof(reused[i].Proof, second[i].Proof), "later-response-decodes-to-exactly-its-own-rows")
+		}
+	}
 }
